@@ -308,6 +308,7 @@ type grpcClientConn struct {
 	responseHeader   http.Header
 	responseTrailer  http.Header
 	readTrailers     func(*grpcUnmarshaler, *duplexHTTPCall) http.Header
+	trailerReceived  bool // Receive has copied the trailers into responseTrailer
 }
 
 func (cc *grpcClientConn) Spec() Spec {
@@ -350,10 +351,14 @@ func (cc *grpcClientConn) Receive(msg any) error {
 		return err
 	}
 	// See if the server sent an explicit error in the HTTP or gRPC-Web trailers.
-	mergeHeaders(
-		cc.responseTrailer,
-		cc.readTrailers(&cc.unmarshaler, cc.duplexCall),
-	)
+	// Callers may keep asking after the stream has ended: copy the trailers once.
+	if !cc.trailerReceived {
+		cc.trailerReceived = true
+		mergeHeaders(
+			cc.responseTrailer,
+			cc.readTrailers(&cc.unmarshaler, cc.duplexCall),
+		)
+	}
 	serverErr := grpcErrorFromTrailer(cc.bufferPool, cc.protobuf, cc.responseTrailer)
 	if serverErr != nil && (errors.Is(err, io.EOF) || !errors.Is(serverErr, errTrailersWithoutGRPCStatus)) {
 		// We've either:
